@@ -215,7 +215,7 @@ Definition step4 (g : opts4) (st : state4) (op : operation) : res state4 :=
           | Some (NRaw (TObj ms)) => Ok (mkState4 (DDoc (obj_of ms)) (acc4 st))
           | Some (NRaw (TArr l)) => Ok (mkState4 (DAry (map child l)) (acc4 st))
           | Some _ => Err EOther
-          | None => Panic
+          | None => Err EMissing            (* no value member: reported as ErrMissing (fix 1a7093a) *)
           end
       | Ok path =>
           lift4 (find4 g c path (fun c' key =>
